@@ -12,7 +12,7 @@
    says: a commit of thread t, serving request q, took effect on key k; the index record became
    (rev, flag), version rev got value v; pred is the index record it replaced. *)
 From KB Require Import Model.RevSys Model.KeySys Model.C01Cases.
-From KB Require Import Proofs.RevSys Proofs.KeySys Proofs.KeySysLog Proofs.KeySysChain Proofs.KeySysFail Proofs.KeySysProps.
+From KB Require Import Proofs.RevSys Proofs.KeySys Proofs.KeySysLog Proofs.KeySysChain Proofs.KeySysFail Proofs.KeySysJust Proofs.KeySysProps.
 Local Open Scope N_scope.
 
 (* C01_chain. For every key:
@@ -51,26 +51,60 @@ Theorem C01_store_wf : forall cidx0 d0 store s, reach cidx0 d0 store s -> kinv s
 Proof. exact reach_kinv. Qed.
 Print Assumptions C01_store_wf.
 
-(* C01_failure_justified. `seen s t` is the ghost flag "since t's LInvoke, in some state t's key differed
-   from what t's request expects" (Model/KeySys.v: observe); justified_at s t := seen s t = true, or — for an
-   unguarded delete, which expects the key to stay as it found it — another commit on its key since its LInvoke.
-   failure_justified_statement allowed :=
-     forall cidx0 d0 store ls, wf_store d0 store -> no_marker_store store ->
-       Forall (fun l => quiet_label l /\ allowed l) ls ->          (no engine-reported conflict abort: DESIGN §5;
-                                                                    no value equal to the deletion marker: C03-F1)
-       forall t r, thr (krun cidx0 ls (kinit d0 store)) t = PReturn r -> resp_cond_failed r = true ->
-         justified_at (krun …) t. *)
-Definition C01_failure_justified_full_statement : Prop := failure_justified_statement (fun _ => True).
+(* C01_failure_justified.
+   Ghost flag `seen s t` (Model/KeySys.v, observe): since t's LInvoke, after some step, t's key differed from
+   what t's request expects (differs): create / Update-with-0: the index record is live; update naming p:
+   the index record is not (p, live); guarded delete naming p: likewise; unguarded delete: the key is not live.
+   applied_since t k log / stamp_since t k log: since t's latest EInvoke, some commit was applied on key k /
+   the asynchronous repair re-stamped k's tombstone (EApplied … ARewrite … flag = true).
+   Hypotheses on the run: quiet_label — no engine-reported conflict abort among the environment choices (the
+   engine assumption of DESIGN.md §5) and no request value equal to the deletion marker; no_marker_store — no
+   live stored value equal to the marker (both because of finding C03-F1: such a key reads as absent).
 
-(* the faithful model refutes it (finding C01-F1, reproduced on the real code): a creator dealt 11 is refused
-   because the asynchronous repair re-stamped the key's tombstone at 12 — the key was deleted all the time *)
-Theorem C01_failure_justified_refuted : ~ failure_justified_statement (fun _ => True).
+   DECISION on the unguarded delete (expected revision 0), documented here on purpose: txn.go:167-170 turns
+   it into a compare-and-swap against the revision its own read returned, so it answers Succeeded=false when
+   another commit lands on the key between its read and its batch although the key was live all the time.
+   Letting it succeed instead would lose that commit (the chain would break: C01_chain), so the refusal is
+   required; we read "the key differed from the expectation" for an unguarded delete as "the key did not stay
+   as the delete found it": alternative 2 below (a commit was applied on its key while it was in flight).
+   Everything else is alternative 1. Alternative 3 is exactly the signature of finding C01-F1. *)
+Theorem C01_failure_justified : forall cidx0 d0 store ls,
+  wf_store d0 store -> no_marker_store store -> Forall quiet_label ls ->
+  let s := krun cidx0 ls (kinit d0 store) in
+  forall t r, thr s t = PReturn r -> resp_cond_failed r = true ->
+    exists q, cur s t = Some q /\
+      (seen s t = true
+       \/ (unguarded_delete q = true /\ applied_since t (req_key q) (log s) = true)
+       \/ (create_like q = true /\ stamp_since t (req_key q) (log s) = true)).
+Proof. exact failure_justified. Qed.
+Print Assumptions C01_failure_justified.
+
+(* for every run in which no asynchronous rewrite re-stamps the request's key while it is in flight *)
+Theorem C01_failure_justified_except_restamp : forall cidx0 d0 store ls,
+  wf_store d0 store -> no_marker_store store -> Forall quiet_label ls ->
+  let s := krun cidx0 ls (kinit d0 store) in
+  forall t r, thr s t = PReturn r -> resp_cond_failed r = true ->
+    exists q, cur s t = Some q /\
+      (stamp_since t (req_key q) (log s) = false ->
+       seen s t = true \/ (unguarded_delete q = true /\ applied_since t (req_key q) (log s) = true)).
+Proof. exact failure_justified_except_restamp. Qed.
+Print Assumptions C01_failure_justified_except_restamp.
+
+(* the complement is real (finding C01-F1, reproduced on the code): without the third alternative the
+   statement is refuted — a creator dealt 11 is refused because the repair re-stamped the tombstone at 12 *)
+Definition C01_failure_justified_full_statement : Prop := failure_justified_full.
+Theorem C01_failure_justified_refuted : ~ failure_justified_full.
 Proof. exact failure_justified_refuted. Qed.
 Print Assumptions C01_failure_justified_refuted.
+Example C01_f1_signature_occurs : stamp_since 0 0 (log (krun true f1_labels (kinit 10 f1_store))) = true.
+Proof. exact f1_signature_occurs. Qed.
 
-(* the complement (label lists without asynchronous rewrites) is stated, not proved: see props/C01.json "gaps";
-   the oracle `justified` checks it on every schedule case *)
-Definition C01_failure_justified_except_rewrite_statement : Prop := failure_justified_except_rewrite.
+(* the flag is never cleared while the request is in flight *)
+Theorem C01_seen_monotone : forall cidx0 s l t q,
+  rpanic (rs s) = false -> cur s t = Some q -> cur (kstep cidx0 s l) t = Some q ->
+  (forall q0, l <> LInvoke t q0) -> seen s t = true -> seen (kstep cidx0 s l) t = true.
+Proof. exact seen_step_mono. Qed.
+Print Assumptions C01_seen_monotone.
 
 (* full statement of the oracle lemma for schedule cases — not proved (see "gaps") *)
 Definition C01_oracle_sound_full_statement : Prop :=
@@ -89,3 +123,10 @@ Example C01_ex_state :
   /\ kv ex_state 0 = {| k_idx := Some (12, false); k_vers := ver_put 12 [9] [(5, [1]); (3, [2])] |}
   /\ thr ex_state 1 = PReturn (RespDelete 12 false (Some ([9], 12))).
 Proof. vm_compute. repeat split; reflexivity. Qed.
+
+(* the hypotheses of C01_failure_justified on the example history: thread 1's unguarded delete is answered
+   "condition failed" (alternative 2: thread 0's update landed on its key), no marker values, no aborts *)
+Example C01_ex_justified :
+  Forall quiet_label ex_labels /\ thr ex_state 1 = PReturn (RespDelete 12 false (Some ([9], 12)))
+  /\ cur ex_state 1 = Some (RqDelete 0 0) /\ seen ex_state 1 = false /\ applied_since 1 0 (log ex_state) = true.
+Proof. split; [unfold ex_labels; repeat constructor; simpl; discriminate|vm_compute; repeat split; reflexivity]. Qed.
